@@ -6,6 +6,15 @@ pub const NIN: usize = 96;
 pub type Inp = [u8; NIN];
 
 // ---- universe bounds (DESIGN.md §4): one scratch build per bounds profile (tools/vbuild.py)
+#[cfg(vtiny)]
+mod b {
+    // profile:tiny
+    pub const NA: u8 = 2;
+    pub const NC: u64 = 2;
+    pub const NM: u8 = 1;
+    pub const NV: u8 = 2;
+    pub const NR: usize = 1;
+}
 #[cfg(vsmall)]
 mod b {
     // profile:small
@@ -15,7 +24,7 @@ mod b {
     pub const NV: u8 = 2; // payload values 0..NV
     pub const NR: usize = 1; // removes in the universe
 }
-#[cfg(not(any(vsmall, vthorough)))]
+#[cfg(not(any(vtiny, vsmall, vthorough)))]
 mod b {
     // profile:base
     pub const NA: u8 = 3;
@@ -181,4 +190,15 @@ pub fn vc_is(c: &Vc, f: impl Fn(u8) -> u64) -> bool {
 
 pub fn dot(a: u8, c: u64) -> Dot<u8> {
     Dot::new(a, c)
+}
+
+// ---- dyadic rationals (exact in both builds)
+/// `n / 2^k`
+#[cfg(vmodel)]
+pub fn mk_rat(n: i64, k: u32) -> num::BigRational {
+    num::BigRational::from_raw(n << (num::FRAC - k))
+}
+#[cfg(not(vmodel))]
+pub fn mk_rat(n: i64, k: u32) -> num::BigRational {
+    num::BigRational::new(num::BigInt::from(n), num::BigInt::from(1i64 << k))
 }
